@@ -596,8 +596,10 @@ def _skip(m, st, callee, args, t):
 def _into_iter_generic(m, st, callee, args, t):
     # `I: IntoIterator` instantiated with an iterator: identity (std: impl<I: Iterator> IntoIterator for I)
     v = args[0]
-    if isinstance(v, Opq) and v.kind in ("chars", "enumerate", "skip", "char_indices"):
+    if isinstance(v, Opq) and v.kind in ITER_KINDS:
         return v
+    if isinstance(v, Ref) and _known_iter(m, st, v):
+        return v  # `&mut I` is itself an iterator (std: impl<I: Iterator> Iterator for &mut I)
     return None
 
 
@@ -911,6 +913,66 @@ def _iter_rev(m, st, callee, args, t):
     h = getattr(m.world, "iter_rev", None)
     if h is not None:
         return h(m, st, args[0])
+    return None
+
+
+@model("<core::iter::adapters::rev::Rev<I> as core::iter::traits::iterator::Iterator>::next")
+def _rev_next(m, st, callee, args, t):
+    return _next_generic(m, st, callee, args, t)
+
+
+@model("core::str::<impl str>::split_at")
+def _split_at(m, st, callee, args, t):
+    h = getattr(m.world, "split_at", None)
+    if h is None:
+        return None
+    return h(m, st, _content(m, st, args[0]), args[1])
+
+
+@model("core::iter::traits::iterator::Iterator::find")
+def _iter_find(m, st, callee, args, t):
+    h = getattr(m.world, "iter_find", None)
+    if h is None:
+        return None
+    return h(m, st, args[0], args[1])
+
+
+# ---- internal iteration: interpreted as the loop around next() it stands for (pv/synth.py)
+ITER_KINDS = ("chars", "char_indices", "enumerate", "skip", "rev", "map", "lcur", "slice-iter")
+
+
+def _known_iter(m, st, v):
+    v = deref_all(m, st, v)
+    return isinstance(v, Opq) and v.kind in ITER_KINDS
+
+
+@model("<alloc::string::String as core::iter::traits::collect::Extend<char>>::extend")
+def _string_extend(m, st, callee, args, t):
+    if not _known_iter(m, st, args[1]):
+        return None
+    return (INLINE, m.prog.bodies["pv::synth::string_extend_chars"], [args[0], args[1]], None)
+
+
+@model("core::iter::traits::iterator::Iterator::for_each")
+def _for_each(m, st, callee, args, t):
+    if not _known_iter(m, st, args[0]):
+        return None
+    return (INLINE, m.prog.bodies["pv::synth::for_each"], [args[1], args[0]], None)
+
+
+@model("<alloc::string::String as core::iter::traits::collect::FromIterator<char>>::from_iter")
+def _string_from_iter(m, st, callee, args, t):
+    if not _known_iter(m, st, args[0]):
+        return None
+    return (INLINE, m.prog.bodies["pv::synth::string_from_chars"], [args[0]], None)
+
+
+@model("core::iter::traits::iterator::Iterator::collect")
+def _collect(m, st, callee, args, t):
+    fr = st.frames[-1]
+    dty = fr.body.locals[t["dest"]["l"]]["ty"] if not t["dest"]["p"] else "?"
+    if dty == "alloc::string::String" and _known_iter(m, st, args[0]):
+        return (INLINE, m.prog.bodies["pv::synth::string_from_chars"], [args[0]], None)
     return None
 
 
